@@ -139,8 +139,14 @@ ares_status_t ares_addrinfo2hostent(const struct ares_addrinfo *ai, int family,
 
   if ((*host)->h_name == NULL) {
     if (ai->cnames) {
-      (*host)->h_name = ares_strdup(ai->cnames->name);
-      if ((*host)->h_name == NULL && ai->cnames->name) {
+      /* The official name is the end of the alias chain, that is the target
+       * of the last CNAME, not of the first one */
+      const struct ares_addrinfo_cname *last = ai->cnames;
+      while (last->next != NULL) {
+        last = last->next;
+      }
+      (*host)->h_name = ares_strdup(last->name);
+      if ((*host)->h_name == NULL && last->name) {
         goto enomem; /* LCOV_EXCL_LINE: OutOfMemory */
       }
     } else {
